@@ -147,6 +147,55 @@ func directedNesting(c *ctx) {
 	families["san"](c)
 }
 
+// tag soup: up to three start tags (dropped for lack of attributes, kept with an attribute, not
+// allowed, kept, skip-content) followed by up to four end tags of the opened elements in every
+// order and multiplicity — the bookkeeping of dropped / kept / skipped elements must survive
+// end tags that arrive out of order, twice, or for an element that is not the innermost one
+func directedSoup(c *ctx) {
+	type kind struct{ open, close string }
+	kinds := []kind{{"<a>", "</a>"}, {"<a href=\"/x\">", "</a>"}, {"<bdo>", "</bdo>"}, {"<b>", "</b>"}, {"<u>", "</u>"}}
+	for v := 0; v < 2; v++ {
+		ops := []*bmx.Op{{Kind: "AE", Names: []string{"b", "i"}}, {Kind: "AA", Names: []string{"href"}, Scope: "E", ScopeEl: []string{"a"}},
+			{Kind: "SK", Names: []string{"u"}}, {Kind: "RU", Flag: true}, {Kind: "SP", Flag: v == 1}}
+		pid, pol := c.policy(ops)
+		var opens func(prefix string, closers []string, d int)
+		opens = func(prefix string, closers []string, d int) {
+			if d > 0 {
+				var distinct []string
+				for _, cl := range closers {
+					seen := false
+					for _, x := range distinct {
+						seen = seen || x == cl
+					}
+					if !seen {
+						distinct = append(distinct, cl)
+					}
+				}
+				var closes func(doc string, m int)
+				closes = func(doc string, m int) {
+					if m > 0 {
+						c.san(pid, pol, []byte(doc+"z"))
+					}
+					if m == 4 {
+						return
+					}
+					for _, cl := range distinct {
+						closes(doc+cl, m+1)
+					}
+				}
+				closes(prefix+"t", 0)
+			}
+			if d == 3 {
+				return
+			}
+			for _, k := range kinds {
+				opens(prefix+k.open, append(append([]string{}, closers...), k.close), d+1)
+			}
+		}
+		opens("", nil, 0)
+	}
+}
+
 // C11: all orders and multiplicities of href/rel/target × rel values × the 32 option sets
 func directedC11(c *ctx) {
 	hrefs := []string{"http://example.com/", "/local", "//host/x", "http:\\\\host", "mailto:a@b.c", "#f", "HTTPS://UP/", "http:/nohost", "",
@@ -512,7 +561,47 @@ var dataAttrNames = []string{"data-a", "data-foo-bar", "data-", "data", "xdata-f
 
 // C18 through the policy: matcher-less style rules for several properties in one call, each of
 // which must get the default handler of its own property (none for an unknown property)
+// what is judged must be what is written: values in which a marker pair that some layer might
+// treat as a comment, a string or an escape straddles a hostile fragment, with the opening
+// marker inside one accepted token (url(...), a quoted string) and the closing one inside another
+func directedJudgedVsEmitted(c *ctx) {
+	pairs := [][2]string{{"/*", "*/"}, {"<!--", "-->"}, {"\\", " "}, {"/*", "*/ /*"}, {"//", "\n"}, {"\\2f *", "*\\2f "}}
+	hostile := []string{"expression(alert(1))", "url(javascript:alert(1))", "url('javascript:alert(1)')", "url(data:text/html,x)", "javascript:alert(1)", "@import 'x'"}
+	type cont struct{ pre, post string }
+	conts := []cont{{"url(http://a/", ")"}, {"url('http://a/", "')"}, {"'a", "'"}, {"\"a", "\""}, {"", ""}}
+	props := []string{"background-image", "list-style-image", "font-family", "color", "cursor", "background", "list-style", "content", "quotes"}
+	aa := &bmx.Op{Kind: "AA", Names: []string{"style"}, Scope: "G"}
+	as := &bmx.Op{Kind: "AS", Names: props, Scope: "G"}
+	pid, pol := c.policy([]*bmx.Op{{Kind: "AE", Names: []string{"div"}}, aa, as})
+	emit := func(prop, v string) {
+		c.san(pid, pol, []byte("<div style=\""+strings.ReplaceAll(prop+": "+v, "\"", "&quot;")+"\">t</div>"))
+	}
+	for _, prop := range props {
+		for _, v := range []string{"red /* c */", "/* c */ red", "re/**/d", "url(http://a/b.png) /* x */", "none /* x */", "'a' /* x */", "red/* x", "red */", "red /*/ x /*/"} {
+			emit(prop, v)
+		}
+	}
+	t := 0
+	for _, pr := range pairs {
+		for _, h := range hostile {
+			for _, c1 := range conts {
+				for _, c2 := range conts {
+					for _, sep := range []string{", ", " "} {
+						t++
+						prop := props[t%len(props)]
+						emit(prop, c1.pre+pr[0]+c1.post+sep+h+sep+c2.pre+pr[1]+c2.post)
+						if t%4 == 0 {
+							emit(props[(t/4)%3], c1.pre+pr[0]+c1.post+sep+h+sep+c2.pre+pr[1]+"/"+c2.post)
+						}
+					}
+				}
+			}
+		}
+	}
+}
+
 func directedC18(c *ctx) {
+	directedJudgedVsEmitted(c)
 	props := [][]string{{"background-image", "width", "color", "behavior"}, {"color", "list-style-image", "no-such-prop", "height"}, {"width", "behavior"}}
 	for _, names := range props {
 		for _, scope := range []string{"E", "M", "G"} {
@@ -542,6 +631,7 @@ func directedC18(c *ctx) {
 // C10: every combination of style-rule sources (element, element pattern, global) for an
 // element that is declared by name or only matched by a pattern
 func directedC10(c *ctx) {
+	directedJudgedVsEmitted(c)
 	styles := []string{"color: red", "color: blue", "color: red; position: fixed", "position: fixed; color: red", "COLOR: RED",
 		"color: expression(alert(1))", "background: url(javascript:alert(1)); color: red", "color: \\72 ed", "-webkit-color: red;;", "color:red;width:1px", "color"}
 	for mask := 0; mask < 27; mask++ {
